@@ -21,9 +21,15 @@ CLAIMS = {
  "C06": ("property-based testing: generated stream pairs, packetisations and schedules vs byte-exact stream equality + independent packet decoder (rapid)",
          "Two position-dependent byte streams (up to 256 KiB quick / 2 MiB thorough), a split of the client stream into DATA packets (boundary sizes, length fields shorter/longer than carried), a split of the host stream into writes and an interleaving are generated; the host must receive exactly the declared payloads and the client exactly the host stream, every DATA packet decoding strictly. In-process and real binary, both transports.",
          "4 C06"),
+ "C07": ("stateful property-based testing of concurrent tunnel programs with tagged streams; per-tunnel solo-expectation oracle (rapid)",
+         "Programs of concurrent tunnels are generated; every 64-byte block on every stream carries tunnel index, direction and offset, each user's allowed host is a distinct loopback address (127.0.0.<user>), so a byte, a phase, a user identity, a token host or a connection leaking from one tunnel into another is observed as a wrong block, a wrong endpoint, a refused valid set-up or an accepted invalid one. A legacy pairing probe sends on RDG_IN_DATA with an identifier similar to, but different from, an open RDG_OUT_DATA's. Client-side schedule is generated; server-side interleavings are sampled.",
+         "4 C07"),
  "C08": ("metamorphic property-based testing: same packet sequence under generated segmentations (rapid)",
          "For generated packet sequences and generated segmentations of their byte stream (one/two/multi cuts, header cuts, coalescing, free cuts) the history (responses, accepts, relayed bytes, end) must equal the one-packet-per-unit run; unframeable streams must end the tunnel without later effects. Exploration.",
          "4 C08"),
+ "C09": ("randomised concurrent workload generation against a race-detector build (rapid + go build -race); oracle: race reports, runtime faults, frame integrity",
+         "Generated multi-client workload programs are run against the real binary built with -race; any 'WARNING: DATA RACE', concurrent-map or concurrent-write fault on its stderr, and any packet received by a client that does not decode strictly, is a violation. The race detector reports unsynchronised pairs that executed, independent of the interleaving actually taken; pairs the workloads never execute are not covered (DESIGN.md section 8).",
+         "4 C09"),
  "C10": ("property-based fuzzing of every input surface with structure-aware generators + coverage-guided fuzz targets; oracle: no panic, no wedge, still serving",
          "Hostile inputs on each surface (packet streams and legacy orderings, socket-buffer configurations, Authorization headers, NTLM messages, KDC-proxy bodies, raw HTTP) are generated structure-aware; the oracle is the server error log / recovered panics / stderr of the real binary plus a liveness probe after every case. Exploration.",
          "4 C10"),
